@@ -11,6 +11,7 @@ use crate::interpreter::execution::interpret_ir;
 use crate::interpreter::{Adapter, AsVertex, ContextIterator, ContextOutcomeIterator, ResolveEdgeInfo, ResolveInfo, VertexIterator};
 use crate::ir::{EdgeParameters, FieldValue};
 use crate::numbers_interpreter::{NumbersAdapter, NumbersVertex};
+use crate::verif_corpus::corpus;
 use crate::verif_family::{family_args, family_depth1_and_pairs, query_text};
 use crate::verif_vk as vk;
 use std::cell::Cell;
@@ -18,12 +19,14 @@ use std::collections::{BTreeMap, BTreeSet};
 use std::rc::Rc;
 use std::sync::Arc;
 
-struct Counting { inner: NumbersAdapter, pulled: Rc<Cell<i64>>, other_calls: Rc<Cell<u64>> }
+struct Counting { inner: NumbersAdapter, pulled: Rc<Cell<i64>>, other_calls: Rc<Cell<u64>>, only: Option<usize> }
 impl<'a> Adapter<'a> for Counting {
     type Vertex = NumbersVertex;
     fn resolve_starting_vertices(&self, edge_name: &Arc<str>, parameters: &EdgeParameters, resolve_info: &ResolveInfo) -> VertexIterator<'a, Self::Vertex> {
         let pulled = self.pulled.clone();
-        Box::new(self.inner.resolve_starting_vertices(edge_name, parameters, resolve_info).inspect(move |_| pulled.set(pulled.get() + 1)))
+        let all = self.inner.resolve_starting_vertices(edge_name, parameters, resolve_info);
+        // `only`: the dataset restricted to its i-th starting vertex (used to attribute rows to starting vertices)
+        match self.only { Some(i) => Box::new(all.skip(i).take(1)), None => Box::new(all.inspect(move |_| pulled.set(pulled.get() + 1))) }
     }
     fn resolve_property<V: AsVertex<Self::Vertex> + 'a>(&self, contexts: ContextIterator<'a, V>, type_name: &Arc<str>, property_name: &Arc<str>, resolve_info: &ResolveInfo) -> ContextOutcomeIterator<'a, V, FieldValue> {
         self.inner.resolve_property(contexts, type_name, property_name, resolve_info)
@@ -48,7 +51,7 @@ pub(crate) fn c03_grid_lazy_starting_vertices() {
         let args: BTreeMap<Arc<str>, FieldValue> = family_args(&q).into_iter().map(|(k, v)| (Arc::from(k), v)).collect();
         let Ok(iq) = crate::frontend::parse(schema.schema(), &q) else { continue; };
         let pulled = Rc::new(Cell::new(0i64));
-        let adapter = Arc::new(Counting { inner: NumbersAdapter::new(), pulled: pulled.clone(), other_calls: Rc::new(Cell::new(0)) });
+        let adapter = Arc::new(Counting { inner: NumbersAdapter::new(), pulled: pulled.clone(), other_calls: Rc::new(Cell::new(0)), only: None });
         let mut rows = interpret_ir(adapter, iq, Arc::new(args)).expect("accepted");
         if pulled.get() != 0 { failures.insert(format!("starting vertices pulled before the first row was requested: {q}")); }
         while let Some(row) = rows.next() {
@@ -59,5 +62,43 @@ pub(crate) fn c03_grid_lazy_starting_vertices() {
         n += 1;
     }
     vk::grid_done("c03_grid_lazy_starting_vertices", n);
+    if !failures.is_empty() { panic!("evaluation is not lazy: {{{}}}", failures.into_iter().take(6).collect::<Vec<_>>().join("; ")); }
+}
+
+
+// @grid c03_grid_lazy_starting_vertices_corpus tier=quick bound="every numbers query of the corpus (repository valid queries + extra shapes) with at most 40 starting vertices and 2000 rows; every prefix of the result stream; rows are attributed to starting vertices by re-running the query on the dataset restricted to one starting vertex at a time"
+// @ob nothing is pulled before the first row is requested, and when the k-th row is produced only the starting vertices up to the one that contributes it have been pulled
+pub(crate) fn c03_grid_lazy_starting_vertices_corpus() {
+    let mut n = 0u64;
+    let mut failures = BTreeSet::new();
+    for case in corpus() {
+        if case.schema_name != "numbers" { continue; }
+        let Ok(iq) = crate::frontend::parse(NumbersAdapter::new().schema(), &case.query) else { continue; };
+        let args = Arc::new(case.arguments.clone());
+        let run = |only: Option<usize>, pulled: Rc<Cell<i64>>| interpret_ir(Arc::new(Counting { inner: NumbersAdapter::new(), pulled, other_calls: Rc::new(Cell::new(0)), only }), iq.clone(), args.clone());
+        // total number of starting vertices and of rows
+        let total = Rc::new(Cell::new(0i64));
+        let Ok(all) = run(None, total.clone()) else { continue; };
+        let all_rows = all.take(2001).count();
+        if all_rows > 2000 || total.get() > 40 { continue; }
+        vk::grid_case(format_args!("{}", case.name));
+        // rows contributed by each starting vertex, in order
+        let mut owner: Vec<i64> = Vec::new();
+        for i in 0..total.get() as usize {
+            let c = run(Some(i), Rc::new(Cell::new(0))).expect("accepted").count();
+            owner.extend(std::iter::repeat(i as i64).take(c));
+        }
+        if owner.len() != all_rows { failures.insert(format!("rows are not the concatenation of the rows of each starting vertex ({} vs {all_rows}): {}", owner.len(), case.name)); continue; }
+        let pulled = Rc::new(Cell::new(0i64));
+        let mut rows = run(None, pulled.clone()).expect("accepted");
+        if pulled.get() != 0 { failures.insert(format!("starting vertices pulled before the first row was requested: {}", case.name)); }
+        let mut k = 0usize;
+        while let Some(_) = rows.next() {
+            if pulled.get() > owner[k] + 1 { failures.insert(format!("row {k} comes from starting vertex #{} but {} starting vertices had been pulled: {}", owner[k], pulled.get(), case.name)); break; }
+            k += 1;
+        }
+        n += 1;
+    }
+    vk::grid_done("c03_grid_lazy_starting_vertices_corpus", n);
     if !failures.is_empty() { panic!("evaluation is not lazy: {{{}}}", failures.into_iter().take(6).collect::<Vec<_>>().join("; ")); }
 }
